@@ -31,7 +31,8 @@ func ctlStream(c *Ctx) []*e1.Program {
 	progs := append(cases.Ctl(), cases.Accept()...)
 	progs = append(progs, cases.Range()...)
 	progs = append(progs, cases.OptGen()...)
-	nodes, capN, nrand := 3, 1500, 400
+	// quick: every shape up to 3 nodes + a PRNG sample of the 4-node shapes; thorough: every shape up to 4 nodes + a sample of the 5-node ones
+	nodes, capN, nrand := 4, 1200, 400
 	if c.Thorough() {
 		nodes, capN, nrand = 5, 20000, 5000
 	}
@@ -74,6 +75,7 @@ func C11(c *Ctx) {
 		k++
 	}
 	progs = append(progs, cases.Opt()...)
+	progs = append(progs, cases.Edge()...)
 	progs = append(progs, cases.Deleg()...)
 	progs = append(progs, cases.Consumer()...)
 	progs = append(progs, genr.Deleg(ndeleg, c.Seed+7)...)
@@ -94,9 +96,9 @@ func C02(c *Ctx) {
 	progs := append(cases.Fx(), cases.Ctl()...)
 	progs = append(progs, cases.Accept()...)
 	progs = append(progs, cases.OptGen()...)
-	nodes, capN, nrand := 3, 1500, 500
+	nodes, capN, nrand := 4, 1000, 500
 	if c.Thorough() {
-		nodes, capN, nrand = 4, 8000, 6000
+		nodes, capN, nrand = 5, 12000, 6000
 	}
 	ex, total, complete := genr.Exhaustive(nodes, capN, q, c.Seed)
 	progs = append(progs, ex...)
@@ -130,6 +132,7 @@ func C13(c *Ctx) {
 func C07(c *Ctx) {
 	q := c.Rep.QuarantinedFeatures()
 	progs := append(cases.Opt(), cases.OptGen()...)
+	progs = append(progs, cases.Edge()...)
 	progs = append(progs, cases.Fx()...)
 	progs = append(progs, cases.Ctl()...)
 	progs = append(progs, cases.Accept()...)
@@ -234,6 +237,7 @@ func C06(c *Ctx) {
 		n = 5000
 	}
 	progs := append(cases.Consumer(), genr.Consumer(n, c.Seed)...)
+	progs = append(progs, cases.Edge()...)
 	c.Rep.Rule = "consumer functions in processed files: range loops over iterators (:= and = binding, no variable) with break/continue/return at tape-chosen iterations, nested ranges, pull-then-range-then-pull on ONE iterator, iterators held in struct fields / maps / slices / arrays / channels / closures / func slices / generic boxes, generic and method generators, plain helper functions that return or break out of a range; the generator side logs an effect before each yield, so over-pulling is an extra event; reference = Go's range-over-func over All() on the reference coroutine; compared: full trace under every tape path. non-trivial = trace longer than 10 events; distinct = program text hash x tape."
 	RunE1(c, E1Spec{
 		Programs:             progs,
